@@ -462,6 +462,13 @@ def cavity_goals(run, n_cases):
         E = run.rng.choice([5e6, 2e7, 1e8])
         if E + V * math.cos(math.radians(phase)) <= 1e6:
             continue
+        dE_ = V * math.cos(math.radians(phase))
+        if 0 < dE_ < 0.02 * E:
+            # tiny relative energy gain: the code's T566/T556/T555 divide by (gamma0 - gamma1)^k, k <= 3, a difference of nearly equal
+            # numbers; the float64 result has no digits left that a tolerance could meaningfully bound (and `interval` cannot
+            # conclude either).  Ill-conditioned region, not compared.
+            run.count("cavity_model_skipped_tiny_gain")
+            continue
         cav = cheetah.Cavity(length=torch.tensor(L, dtype=DT), voltage=torch.tensor(V, dtype=DT), phase=torch.tensor(phase, dtype=DT),
                              frequency=torch.tensor(f, dtype=DT), dtype=DT)
         beam = gen_real_beam(run.rng, n=run.rng.choice([3, 4]), energy=E)
